@@ -152,6 +152,103 @@ theorem params_differ (s0 i j boots : Nat) (hij : i < j) :
       (by have := Nat.mod_lt (s0 + j) (show 0 < 2 ^ 64 by decide); omega) h
     exact no_repeat s0 (2 ^ 64) i j (by decide) hij hj e
 
+/-- msgPrivacyParameters emitted by the `n`-th encrypt call of a key installation (if it succeeded) -/
+def ppAt (C : Ciphers) (k : PrivKey) (calls : List (ScopedPdu × Nat × Nat)) (n : Nat) : Option Bytes :=
+  match calls[n]? with
+  | none => none
+  | some (s, b, t) =>
+    match ((afterN C k (calls.take n)).encrypt C s b t).2 with
+    | .ok (_, pp) => some pp
+    | _ => none
+
+/-- **C14.sequence_distinct**: over any sequence of encrypt calls on one key installation (any
+requests, any engine boots / time values, failed calls in between), the msgPrivacyParameters of two
+different messages differ, as long as fewer than 2^32 (DES) / 2^64 (AES) calls lie between them -/
+theorem sequence_distinct (C : Ciphers) (k : PrivKey) (hk : saltOf k < modulus k)
+    (calls : List (ScopedPdu × Nat × Nat)) (i j : Nat) (hij : i < j) (hj : j - i < modulus k)
+    (pi pj : Bytes) (hi : ppAt C k calls i = some pi) (hjj : ppAt C k calls j = some pj) : pi ≠ pj := by
+  unfold ppAt at hi hjj
+  cases hci : calls[i]? with
+  | none => rw [hci] at hi; cases hi
+  | some ci =>
+    cases hcj : calls[j]? with
+    | none => rw [hcj] at hjj; cases hjj
+    | some cj =>
+      obtain ⟨si, bi, ti⟩ := ci
+      obtain ⟨sj, bj, tj⟩ := cj
+      rw [hci] at hi; rw [hcj] at hjj
+      simp only at hi hjj
+      have hli : i < calls.length := by
+        rcases Nat.lt_or_ge i calls.length with h | h
+        · exact h
+        · rw [List.getElem?_eq_none h] at hci; cases hci
+      have hlj : j < calls.length := by
+        rcases Nat.lt_or_ge j calls.length with h | h
+        · exact h
+        · rw [List.getElem?_eq_none h] at hcj; cases hcj
+      obtain ⟨a1, a2⟩ := afterN_salt C (calls.take i) k hk
+      obtain ⟨b1, b2⟩ := afterN_salt C (calls.take j) k hk
+      rw [List.length_take, Nat.min_eq_left (by omega)] at a1 b1
+      cases hei : ((afterN C k (calls.take i)).encrypt C si bi ti).2 with
+      | ok ri =>
+        cases hej : ((afterN C k (calls.take j)).encrypt C sj bj tj).2 with
+        | ok rj =>
+          obtain ⟨cti, ppi⟩ := ri
+          obtain ⟨ctj, ppj⟩ := rj
+          rw [hei] at hi; rw [hej] at hjj
+          simp only [Option.some.injEq] at hi hjj
+          subst hi; subst hjj
+          obtain ⟨di, ai⟩ := salt_sent C _ si bi ti cti ppi hei
+          obtain ⟨dj, aj⟩ := salt_sent C _ sj bj tj ctj ppj hej
+          have hne := no_repeat (saltOf k) (modulus k) i j (by omega) hij hj
+          cases hki : afterN C k (calls.take i) with
+          | noPriv => rw [hki] at hei; simp [PrivKey.encrypt] at hei
+          | des key preIv salt buf =>
+            have hm : modulus k = 2 ^ 32 := by rw [← a2, hki]; rfl
+            cases hkj : afterN C k (calls.take j) with
+            | noPriv => rw [hkj] at hej; simp [PrivKey.encrypt] at hej
+            | des key' preIv' salt' buf' =>
+              rw [di key preIv salt buf hki, dj key' preIv' salt' buf' hkj]
+              rw [hki] at a1; rw [hkj] at b1
+              simp only [saltOf] at a1 b1
+              intro heq
+              have hlen : (beBytes 4 (bi % 2 ^ 32)).length = (beBytes 4 (bj % 2 ^ 32)).length := by
+                rw [beBytes_length, beBytes_length]
+              have h2 := (List.append_inj heq hlen).2
+              have hs1 : salt < 256 ^ 4 := by
+                rw [a1, hm]; exact Nat.lt_of_lt_of_le (Nat.mod_lt _ (by decide)) (by decide)
+              have hs2 : salt' < 256 ^ 4 := by
+                rw [b1, hm]; exact Nat.lt_of_lt_of_le (Nat.mod_lt _ (by decide)) (by decide)
+              have := beBytes_inj 4 salt salt' hs1 hs2 h2
+              rw [a1, b1] at this
+              exact hne this
+            | aes key' salt' buf' =>
+              have : modulus k = 2 ^ 64 := by rw [← b2, hkj]; rfl
+              rw [hm] at this; exact absurd this (by decide)
+          | aes key salt buf =>
+            have hm : modulus k = 2 ^ 64 := by rw [← a2, hki]; rfl
+            cases hkj : afterN C k (calls.take j) with
+            | noPriv => rw [hkj] at hej; simp [PrivKey.encrypt] at hej
+            | des key' preIv' salt' buf' =>
+              have : modulus k = 2 ^ 32 := by rw [← b2, hkj]; rfl
+              rw [hm] at this; exact absurd this (by decide)
+            | aes key' salt' buf' =>
+              rw [ai key salt buf hki, aj key' salt' buf' hkj]
+              rw [hki] at a1; rw [hkj] at b1
+              simp only [saltOf] at a1 b1
+              intro heq
+              have hs1 : salt < 256 ^ 8 := by
+                rw [a1, hm]; exact Nat.lt_of_lt_of_le (Nat.mod_lt _ (by decide)) (by decide)
+              have hs2 : salt' < 256 ^ 8 := by
+                rw [b1, hm]; exact Nat.lt_of_lt_of_le (Nat.mod_lt _ (by decide)) (by decide)
+              have := beBytes_inj 8 salt salt' hs1 hs2 heq
+              rw [a1, b1] at this
+              exact hne this
+        | err e => rw [hej] at hjj; cases hjj
+        | panic w => rw [hej] at hjj; cases hjj
+      | err e => rw [hei] at hi; cases hi
+      | panic w => rw [hei] at hi; cases hi
+
 /-- **C14.flags**: a session with a privacy key sets the priv flag and sends msgData as an OCTET
 STRING holding the ciphertext -/
 theorem flags (s : V3Session) (fr : Bool) (pp ct : Bytes) :
